@@ -106,3 +106,124 @@ def scaled(x, c):
     if isinstance(x, NStack):
         return NStack([scaled(a, c) for a in x.parts])
     return x * c
+
+
+# -------------------------------------------------------------------------------------------------
+# trace (cyclic) equality
+# -------------------------------------------------------------------------------------------------
+
+
+def _word_key(w):
+    return (len(w), tuple(a.uid for a in w))
+
+
+def trace_normal(p):
+    """Canonical representative of trace(p) under cyclic rotations + the rewrite rules."""
+    cur = nc.normalise(p)
+    for _ in range(6):
+        out = NC({}, cur.rows, cur.cols)
+        changed = False
+        for w, c in cur.t.items():
+            best = None
+            for r in range(max(1, len(w))):
+                rot = w[r:] + w[:r]
+                q = nc.normalise(NC({rot: c}, rot[0].rows if rot else cur.rows, rot[-1].cols if rot else cur.cols))
+                key = (sum(len(x) for x in q.t), sorted(_word_key(x) for x in q.t))
+                if best is None or key < best[0]:
+                    best = (key, q)
+            q = best[1]
+            if list(q.t.keys()) != [w]:
+                changed = True
+            q.rows = q.cols = cur.rows
+            out = out + q
+        cur = out
+        if not changed:
+            break
+    return cur
+
+
+def trace_zero(p):
+    q = trace_normal(p)
+    q = NC({w: c for w, c in q.t.items() if not A.is_zero(c, budget=10)}, q.rows, q.cols)
+    if not q.t:
+        return True
+    # unfold definitions and retry
+    C = nc.ctx()
+    present = [a for w in q.t for a in w if a in C.defs or (a.adj is not None and a.adj in C.defs)]
+    if present:
+        a = max(present, key=lambda x: x.uid)
+        a = a if a in C.defs else a.adj
+        return trace_zero(nc.unfold(q, a))
+    return False
+
+
+# -------------------------------------------------------------------------------------------------
+# SCF / GTH stubs
+# -------------------------------------------------------------------------------------------------
+
+
+class GthStub:
+    """scf.gth: one species with s (2 projectors) and p (1 projector) channels -> 5 projector functions.
+    h[l,i,j] are real symbols with h_ij = h_ji (post-condition of read_gth, C12.read_gth.h_symmetric)."""
+
+    def __init__(self, at, symmetric=True):
+        import numpy as np
+
+        C = A.ctx()
+        self.NbetaNL = 5
+        lmax = 2
+        nproj = [2, 1, 0, 0]
+        h = np.empty((4, 3, 3), dtype=object)
+        h.fill(A.ZERO)
+        for l in range(lmax):
+            for i in range(nproj[l]):
+                for j in range(nproj[l]):
+                    if symmetric:
+                        h[l, i, j] = C.var(f"h{l}_{min(i, j)}{max(i, j)}")
+                    else:
+                        h[l, i, j] = C.var(f"h{l}_{i}{j}")
+        self.psp = dict(lmax=lmax, Nproj_l=nproj, h=h)
+        # the index table exactly as init_gth_nonloc fills it (contract C06.prj2beta.bijection)
+        p2b = -np.ones((3, 1, 4, 7), dtype=int)
+        nb = 0
+        for l in range(lmax):
+            for m in range(-l, l + 1):
+                for iprj in range(nproj[l]):
+                    nb += 1
+                    p2b[iprj, 0, l, m + lmax - 1] = nb
+        self.prj2beta = p2b
+        es = R.declare_units(self.NbetaNL, self.NbetaNL)
+        self.betaNL = []
+        for ik in range(at.kpts.Nk):
+            val = NC({}, dim_active(ik), self.NbetaNL)
+            for j in range(self.NbetaNL):
+                b = nc.ctx().atom(f"beta{ik}_{j}", dim_active(ik), 1)
+                val = val + NC({(b, es[j].dagger()): A.ONE}, dim_active(ik), self.NbetaNL)
+            self.betaNL.append(NArr(val, (dim_active(ik), self.NbetaNL)))
+
+    def __getitem__(self, key):
+        return self.psp
+
+
+class Scf:
+    pass
+
+
+def make_scf(loader, Nk=1, Nspin=1, symmetric_h=True, pot="gth"):
+    at = make_atoms(loader, Nk=Nk, Nspin=Nspin)
+    at.Natoms = 1
+    at.atom = ["X"]
+    scf = Scf()
+    scf.atoms = at
+    scf.kpts = at.kpts
+    scf.xc_type = "lda"
+    scf.pot = pot
+    scf.Vloc = vec_atom("Vloc", DIM["Ns"], real=True)
+    scf.gth = GthStub(at, symmetric=symmetric_h)
+    f = [[A.ctx().var(f"f{ik}{s}", positive=True) for s in range(Nspin)] for ik in range(Nk)]
+    at.occ.F = [[NArr(NC.ident(DIM["Nstate"], f[ik][s]), (DIM["Nstate"], DIM["Nstate"])) for s in range(Nspin)] for ik in range(Nk)]
+    at.occ.fsym = f
+    vxc = [vec_atom(f"vxc{s}", DIM["Ns"], real=True) for s in range(Nspin)]
+    phir = vec_atom("phi_r", DIM["Ns"], real=True)
+    pots = dict(dn_spin=None, phi=at.J(phir), vxc=vxc, vsigma=None, vtau=None)
+    return scf, at, pots
